@@ -48,6 +48,7 @@ pub fn run_line(line: &str, scratch: &str) -> String {
         "lo_snps" => op_lo_snps(c),
         "lo_mid" => op_lo_mid(c),
         "lo_derep" => op_lo_derep(c),
+        "bloom" => op_bloom(c),
         "lo_out" => op_lo_out(c, scratch),
         "lo_graph" => by_width!(c, op_lo_graph),
         "lo_pipe" => by_width!(c, op_lo_pipe, scratch),
@@ -797,6 +798,16 @@ fn op_lo_mid(c: &Case) -> String {
     let seqs: Vec<String> = c.list("seqs").iter().map(|s| s.to_string()).collect();
     let (mids, last) = loh::extract_middle_bases(&seqs, c.usize("k"));
     format!("{};{}", join(&mids), if last.is_empty() { ".".to_string() } else { last })
+}
+
+/// `bloom keys=h1,h2,...`: the Bloom step of a fresh `KmerFilter` on raw hash values, one 0/1 per key
+fn op_bloom(c: &Case) -> String {
+    let mut f = ska::ska_dict::bloom_filter::KmerFilter::new(2);
+    f.init();
+    c.list("keys")
+        .iter()
+        .map(|k| if f.verif_bloom_add_and_check(k.parse::<u64>().unwrap()) { '1' } else { '0' })
+        .collect()
 }
 
 /// `groups=entry:exit:totallen,...` -> kept (entry, exit) pairs and the recorded extremities
